@@ -707,7 +707,11 @@ class ExecutionState:
                 overflow_op = self._overflow_queue.get_nowait()
                 op_size = self._calculate_operation_size(overflow_op)
 
-                if total_size + op_size > self._batcher_config.max_batch_size_bytes:
+                if (
+                    batch
+                    and total_size + op_size
+                    > self._batcher_config.max_batch_size_bytes
+                ):
                     # Put back and stop
                     self._overflow_queue.put(overflow_op)
                     break
